@@ -182,7 +182,7 @@ func RunPath(w *World, fn *ssa.Function, prefix []int, opts *Options, sess *smt.
 			opts.ReachSeen.Store(r, true)
 		}
 	}
-	if res.Outcome == "ok" && len(witness) > 0 && witness[0] && res.Asserts > 0 {
+	if res.Outcome == "ok" && len(witness) > 0 && witness[0] && res.Asserts > 0 && len(res.Known) == 0 && s.outcome == nil {
 		if sess.Check() == smt.Sat {
 			res.Witness = &Witness{Inputs: p.model(), Choices: copyChoices(res.Choices), Decisions: res.Decisions}
 		}
